@@ -10,6 +10,8 @@ import (
 	"os"
 	"path/filepath"
 	"sort"
+	"strconv"
+	"strings"
 	"sync"
 	"sync/atomic"
 
@@ -131,10 +133,8 @@ func (m *Manager) openLatestSegment() error {
 	}
 	var ids []int
 	for _, f := range files {
-		var id int
-		_, err := fmt.Sscanf(filepath.Base(f), "%05d.wal", &id)
-		if err == nil {
-			ids = append(ids, id)
+		if id, ok := parseSegmentID(f); ok {
+			ids = append(ids, int(id))
 		}
 	}
 	sort.Ints(ids)
@@ -358,17 +358,34 @@ func (m *Manager) Replay(fn func(info EntryInfo, payload []byte) error) error {
 	if err != nil {
 		return err
 	}
-	sort.Strings(files)
+	type seg struct {
+		id   uint32
+		path string
+	}
+	segs := make([]seg, 0, len(files))
 	for _, path := range files {
-		var id int
-		if _, err := fmt.Sscanf(filepath.Base(path), "%05d.wal", &id); err != nil {
-			continue
+		if id, ok := parseSegmentID(path); ok {
+			segs = append(segs, seg{id, path})
 		}
-		if err := m.replayFile(uint32(id), path, fn); err != nil {
+	}
+	sort.Slice(segs, func(i, j int) bool { return segs[i].id < segs[j].id })
+	for _, s := range segs {
+		if err := m.replayFile(s.id, s.path, fn); err != nil {
 			return err
 		}
 	}
 	return nil
+}
+
+// parseSegmentID extracts the numeric id of "<id>.wal"; ids above 99999 use more
+// than five digits.
+func parseSegmentID(path string) (uint32, bool) {
+	base := filepath.Base(path)
+	if !strings.HasSuffix(base, ".wal") {
+		return 0, false
+	}
+	id, err := strconv.ParseUint(strings.TrimSuffix(base, ".wal"), 10, 32)
+	return uint32(id), err == nil
 }
 
 func (m *Manager) replayFile(id uint32, path string, fn func(info EntryInfo, payload []byte) error) error {
